@@ -110,6 +110,10 @@ type sliceFn func(c *Ctx)
 var slices = map[string]sliceFn{}
 
 func main() {
+	// the implementation creates an INFO logger per context writing to os.Stderr at creation time
+	if dn, err := os.OpenFile(os.DevNull, os.O_WRONLY, 0); err == nil && os.Getenv("VERIF_LOGS") == "" {
+		os.Stderr = dn
+	}
 	seed := flag.Int64("seed", 1, "PRNG seed")
 	tier := flag.String("tier", "quick", "quick|thorough")
 	n := flag.Int("n", 0, "number of cases (0 = tier default)")
